@@ -565,20 +565,22 @@ pub async fn run(focus: &'static str, clean: bool) {
                 let t4 = nodes[0].clk.raw();
                 // the datagram reaches the socket the task currently has open (a fresh one per poll);
                 // answers arriving after the task closed it vanish, as on a real host
-                let delivered = match shim::hub_socket_for(srcs[i].peer) {
-                    Some(sock) if !srcs[i].ended => shim::hub_deliver(sock, d.bytes.clone()),
-                    _ => false,
+                let sock = if srcs[i].ended { None } else { shim::hub_socket_for(srcs[i].peer) };
+                let delivered = match sock {
+                    Some(sock) => shim::hub_deliver(sock, d.bytes.clone()),
+                    None => false,
                 };
                 // let the task take and process it (same simulated instant), then look at what it did.
                 // The task may instead re-arm first (its timer is due in the same instant and its select!
                 // picks that branch): the poll opens a fresh socket and the datagram vanishes with the old one.
                 let consumed_before = shim::hub_last_consumed_seq();
-                if delivered {
+                while delivered && shim::hub_last_consumed_seq() == consumed_before && shim::hub_socket_for(srcs[i].peer) == sock {
+                    // (other wake-ups - a permit left over from an earlier send, another source polling - : wait again)
                     tokio::select! {
                         biased;
                         _ = consumed.notified() => {}
                         _ = notify.notified() => {}
-                        _ = tokio::time::sleep(std::time::Duration::from_millis(1)) => { probe("glue-settle-timeout"); }
+                        _ = tokio::time::sleep(std::time::Duration::from_millis(1)) => { probe("glue-settle-timeout"); break; }
                     }
                 }
                 let consumed_seq = shim::hub_last_consumed_seq();
